@@ -1502,6 +1502,9 @@ class Interp:
             if isinstance(a, ast.Starred):
                 v = self.eval(cx, fr, a.value)
                 items = self.iter_concrete(cx, v)
+                if items is None and isinstance(v, LazyGen):
+                    args.append(StarOf(v))  # f(*(g(x) for x in S)): only a callee that knows what it means accepts it (spec binding)
+                    continue
                 if items is None:
                     raise Unsupported("*args of symbolic length")
                 args += items
@@ -1942,6 +1945,28 @@ class LazyGen(SVal):
 
     def py_truth(self, cx):
         return True
+
+
+class StarOf(SVal):
+    """the argument list *(g(x) for x in S) of symbolic length; `elementwise(interp, cx)` gives (bound var, range, g(var))"""
+
+    def __init__(self, gen):
+        self.gen = gen
+
+    def elementwise(self, interp, cx):
+        g = self.gen
+        e, src, fr = g.node, g.src, g.fr
+        sub = Frame(fr.modinfo, fr.qual, Env(fr.env), spec=fr.spec, cls=fr.cls)
+        if isinstance(src, SSeq):
+            i = z3.Int(fresh_name("si"))
+            elem, rng, bound = src.at(i), z3.And(0 <= i, i < src.n), i
+        else:
+            k = z3.Const(fresh_name("sk"), src.kt.sort())
+            elem, rng, bound = src.kt.wrap(k), src.has(k), k
+        vals, fails, axioms = interp.eval_exprs_on_element(cx, sub, e.generators[0].target, elem, [e.elt], bound)
+        if fails or axioms:
+            raise Unsupported("the generated arguments may raise")
+        return bound, rng, vals[0]
 
 
 class MapGen(SVal):
